@@ -447,7 +447,7 @@ func genC11(r *Rng, tier string, i int) map[string]any {
 	cd := f.tables["calendar_dates.txt"]
 	ids := []string{"SV0", "SV1", "SV2", "SVNEW"}
 	for k := 0; k < r.Intn(6); k++ {
-		cd.rows = append(cd.rows, []string{r.Pick(ids), r.Pick([]string{"20230101", "20230228", "20230301", "20230615", "20230930", "20231001", "20251231", "20240229"}), r.Pick([]string{"1", "2", "2", "1", "3"})})
+		cd.rows = append(cd.rows, []string{r.Pick(ids), r.Pick([]string{"20230101", "20230228", "20230301", "20230615", "20230930", "20231001", "20251231", "20240229", "20230312", "20231105", "20230326", "20231029", "20230402"}), r.Pick([]string{"1", "2", "2", "1", "3"})})
 	}
 	for i := len(cd.rows) - 1; i > 0; i-- {
 		j := r.Intn(i + 1)
@@ -482,6 +482,6 @@ func init() {
 	}
 	props["C11"] = func() Prop {
 		return &staticProp{id: "C11", nQuick: 2000, nThor: 80000, oracle: oracleC11, gen: genC11,
-			rule: "feeds with calendar-only, calendar_dates-only and combined services, exception rows before / inside / after the calendar range in shuffled order, unknown exception types, invalid dates, one third of the cases with messy rows; calendar.txt or calendar_dates.txt absent in 2 of 5 cases; agency zones from {New_York, London, Kolkata, UTC, Lord_Howe, unknown}; distinct = distinct input JSON; non-trivial = at least two services"}
+			rule: "feeds with calendar-only, calendar_dates-only and combined services, calendar ranges of several shapes (one day, end before start, across a year end and a leap day, ending on days on which a generated zone changes its offset), exception rows before / inside / after the calendar range (also on offset-change days) in shuffled order, unknown exception types, invalid dates, one third of the cases with messy rows; calendar.txt or calendar_dates.txt absent in 2 of 5 cases; agency zones from {New_York, London, Kolkata, UTC, Lord_Howe, unknown}; distinct = distinct input JSON; non-trivial = at least two services"}
 	}
 }
